@@ -257,6 +257,30 @@ def cases(rng, tier):
             ver, v, p = gens.rand_block(rng)
             items.append(["n", ver, v, p])
         yield ("c05_cidr_merge", [items], "merge_wide")
+    # long inputs (hundreds to thousands of items): runs of consecutive hosts that merge upwards, scattered blocks of a /16,
+    # duplicates, both families, shuffled -- a size-dependent fast path or batching bug needs inputs of this length
+    for size in ([150, 400, 1100, 2600] if quick else [150, 400, 1100, 2600, 5000, 9000] * 3):
+        items = []
+        while len(items) < size:
+            ver = rng.choice([4, 4, 6])
+            w = gens.W[ver]
+            base = rng.choice([0, (1 << w) - (1 << 16), rng.getrandbits(w - 16) << 16])
+            kind = rng.randrange(4)
+            if kind == 0:       # a run of consecutive hosts
+                st = base + rng.randrange(1 << 16)
+                for i in range(rng.randint(2, min(300, size))):
+                    items.append(["n", ver, min(st + i, (1 << w) - 1), w])
+            elif kind == 1:     # scattered small blocks (host bits kept)
+                for _ in range(rng.randint(1, 60)):
+                    items.append(["n", ver, base + rng.randrange(1 << 16), rng.randint(w - 10, w)])
+            elif kind == 2:     # a range
+                a, b = sorted((base + rng.randrange(1 << 16), base + rng.randrange(1 << 16)))
+                items.append(["r", ver, a, b])
+            else:               # duplicates of what is there
+                items += [rng.choice(items) for _ in range(rng.randint(1, 20))] if items else []
+        items = items[:size]
+        rng.shuffle(items)
+        yield ("c05_cidr_merge", [items], "merge_big")
     for ver in (4, 6):
         w = gens.W[ver]
         yield ("c05_cidr_merge", [[["n", ver, 0, 0]]], "merge_edge")
